@@ -6,19 +6,30 @@
 
 package command
 
-// ---- reservations (sync.Map behind; the contract is the protocol the callers rely on)
+// ---- reservations: a sync.Map per kind behind; the contract is the protocol the callers rely on
+// take reports success exactly when its own atomic test-and-set inserted the entry (won, see command.contracts): a
+// look-up followed by an insertion would let two concurrent requests both succeed (C07 C10 C11)
+//@ def refEntry(r, ref, key) = mapKey(r.references[ref], sprintf("%d/%s", ref, key))
 //@ func (*command.Referencer).take
+// (the referencer is built by NewReferencer with a table per kind)
+//@   assumes r != nil && r.references != nil && has(r.references, ref) && r.references[ref] != nil
+// held mirrors won: both change only here and in release, together
+//@   assumes held[refKey(ref, key)] ==> won[refEntry(r, ref, key)]
+//@   ensures err == nil ==> won[refEntry(r, ref, key)] && !old(won[refEntry(r, ref, key)])
+//@   ensures forall k0 string :: k0 != refEntry(r, ref, key) || err != nil ==> won[k0] == old(won[k0])
 //@   update taken = ite(err == nil, add(taken, refKey(ref, key)), taken)
 //@   update held = ite(err == nil, add(held, refKey(ref, key)), held)
 //@   ensures err == nil ==> !old(held[refKey(ref, key)])
-//@   modifies ghost taken, ghost held
-//@   trusted sync.Map.LoadOrStore is atomic: take succeeds iff no other request holds the key
+//@   modifies ghost taken, ghost held, ghost won
+//@   property C07 C10 C11
 //@ func (*command.Referencer).release
 //@   requires held[refKey(ref, key)]      // C07 C10 C11: a request releases only a reservation it holds (releasing another request's would let a third one in)
 //@   requires forall c0 ref :: ackable[c0] ==> acked[c0]      // C07 C10 C11: ... and only when no log enqueued by this request still awaits persistence
+//@   assumes r != nil && r.references != nil && has(r.references, ref) && r.references[ref] != nil
+//@   ensures forall k1 string :: won[k1] == (old(won[k1]) && k1 != refEntry(r, ref, key))
 //@   update held = remove(held, refKey(ref, key))
-//@   modifies ghost held
-//@   trusted sync.Map.Delete
+//@   modifies ghost held, ghost won
+//@   property C07 C10 C11
 
 // ---- chaining: the commander's mutex protects the head of the chain, the transaction counter and the
 // position of the batcher's queue. Whenever the mutex is free, everything that has been chained has been
